@@ -1,6 +1,6 @@
 (* C17  Application lists accumulate in merge order with ~ negation.
    Only statements, each closed by [exact] of a lemma proved in Proofs/ListsFacts.v. *)
-From RV Require Import Model.Lists Proofs.ListsFacts.
+From RV Require Import Model.Node Model.Lists Proofs.ListsFacts Proofs.NodeApps.
 
 (** Every list reachable by loading application lists (From<Vec<String>>) and merging them
     in any order is duplicate-free, its pending negations are duplicate-free and disjoint
@@ -57,6 +57,27 @@ Theorem C17_merge_is_replay :
     r_merge l o = fold_left r_append (map (String "~"%char) (r_negs o) ++ r_items o) l.
 Proof. exact r_merge_is_fold. Qed.
 Eval cbv in "ASSUMPTIONS-OF C17_merge_is_replay"%string. Print Assumptions C17_merge_is_replay.
+
+(** End to end (with C01): the application list of a rendered node is the replay of the lists of
+    the classes the include walk records -- each class once, in the order of the record
+    (post-order) -- followed by the node's own list; every list is merged with [r_merge], whose
+    single steps are characterised above. *)
+Theorem C17_node_applications_accumulate_in_walk_order :
+  forall fi cfg tbl f n meta r,
+    node_render f fi cfg tbl n meta = Ok r ->
+    exists seen lists,
+      NoDup seen /\ Forall2 (class_apps cfg tbl) seen lists /\
+      n_apps r = r_merge (fold_left (fun acc l => r_merge acc (r_from l)) lists r_empty) (n_apps n).
+Proof. exact node_apps_accumulate_in_walk_order. Qed.
+Eval cbv in "ASSUMPTIONS-OF C17_node_applications_accumulate_in_walk_order"%string. Print Assumptions C17_node_applications_accumulate_in_walk_order.
+
+(** ... so the rendered list is duplicate-free, carries no negation marker and its pending
+    negations are disjoint from its items, for every inventory. *)
+Theorem C17_node_applications_satisfy_the_invariant :
+  forall fi cfg tbl f n meta r l,
+    n_apps n = r_from l -> node_render f fi cfg tbl n meta = Ok r -> RInv (n_apps r).
+Proof. exact node_apps_invariant. Qed.
+Eval cbv in "ASSUMPTIONS-OF C17_node_applications_satisfy_the_invariant"%string. Print Assumptions C17_node_applications_satisfy_the_invariant.
 
 (** Non-vacuity: a reachable state with an item, a pending negation, and the premises of the
     theorems above. *)
